@@ -334,6 +334,16 @@ func LiveMPD(a *asset, mpdName string, cfg *ResponseConfig, drmCfg *drm.DrmConfi
 		if err != nil {
 			return nil, fmt.Errorf("lastPeriodStartTime: %w", err)
 		}
+	} else {
+		// A new Period appears at its start, before its first segment is listed: that changes the MPD too.
+		ast, errA := mpd.AvailabilityStartTime.ConvertToSeconds()
+		pub, errP := mpd.PublishTime.ConvertToSeconds()
+		if errA == nil && errP == nil {
+			lastStartMS := int64(math.Round((ast + time.Duration(*mpd.Periods[len(mpd.Periods)-1].Start).Seconds()) * 1000))
+			if lastStartMS > int64(math.Round(pub*1000)) && lastStartMS <= int64(wTimes.nowMS) {
+				mpd.PublishTime = m.ConvertToDateTimeMS(lastStartMS)
+			}
+		}
 	}
 
 	if afterStop {
